@@ -64,8 +64,36 @@ func c20Stored(name string) (time.Time, int64) {
 // produce (time.Time.Sub goes through a 64-bit multiply/divide by 1e9 that no
 // solver back end finishes). The native replay runs the real time.Since.
 func vC20Since(t time.Time) time.Duration {
-	return time.Duration(time.Now().Unix()-t.Unix()) * time.Second
+	d := time.Now().Unix() - t.Unix()
+	// explicit range (proved, then assumed): lets the back ends bound the
+	// constant multiplication below
+	vLemma(d > -(1<<33) && d < 1<<33, "now - t fits 34 bits")
+	r := time.Duration(d) * time.Second
+	// x -> x*1e9 is strictly monotone on |x| < 2^33 (no 64-bit wrap). With a
+	// compound x the back ends do not find this; it is proved for a plain
+	// variable by VerifC20MulLemma and used here for the configured expiry.
+	e := c20ExpirySec
+	vAssume((r > time.Duration(e)*time.Second) == (d > e))
+	vAssume((r < time.Duration(e)*time.Second) == (d < e))
+	return r
 }
+
+// c20ExpirySec is the configured ChannelPruneExpiry of the current run in
+// seconds (concrete).
+var c20ExpirySec int64
+
+// VerifC20MulLemma proves the monotonicity fact vC20Since assumes, for each
+// configured expiry.
+func VerifC20MulLemma() {
+	x := vI64("x")
+	vAssume(x > -(1<<33) && x < 1<<33)
+	e := c20Expiries[vChoice("expiry", len(c20Expiries))]
+	r := time.Duration(x) * time.Second
+	vAssert((r > time.Duration(e)*time.Second) == (x > e), "x*1e9 > e*1e9 iff x > e")
+	vAssert((r < time.Duration(e)*time.Second) == (x < e), "x*1e9 < e*1e9 iff x < e")
+}
+
+var c20Expiries = []int64{14 * 24 * 3600, 24 * 3600, 0}
 
 func c20Builder(st *c20Store, assumeValid bool, expiry time.Duration) *Builder {
 	g, err := graphdb.NewChannelGraph(st, graphdb.WithUseGraphCache(false))
@@ -82,7 +110,7 @@ func c20Builder(st *c20Store, assumeValid bool, expiry time.Duration) *Builder {
 // update's timestamp is within ChannelPruneExpiry of now.
 func VerifC20StaleEdge() {
 	vReplace("time.Since", "github.com/lightningnetwork/lnd/graph.vC20Since")
-	vAssumption("time.Since(t) = (now - t) in whole seconds, for t = time.Unix(sec, 0) and the engine's whole-second time.Now")
+	vAssumption("time.Since(t) = (now - t) in whole seconds, for t = time.Unix(sec, 0) and the engine's whole-second time.Now; x*1e9 is monotone for |x| < 2^33 (proved separately by VerifC20MulLemma)")
 	st := &c20Store{}
 	var s1, s2 int64
 	st.e1, s1 = c20Stored("e1")
@@ -96,8 +124,10 @@ func VerifC20StaleEdge() {
 		st.isZombie = true
 	}
 	assumeValid := vBool("assumeValid")
-	expirySec := vI64("expirySec")
-	vAssume(expirySec >= 0 && expirySec <= 366*24*3600)
+	// configured prune expiry: concrete cases (a symbolic one needs
+	// a*1e9 < b*1e9 <=> a < b over 64 bits, which no back end finishes)
+	expirySec := c20Expiries[vChoice("expiry", len(c20Expiries))]
+	c20ExpirySec = expirySec
 	expiry := time.Duration(expirySec) * time.Second
 	b := c20Builder(st, assumeValid, expiry)
 
